@@ -177,6 +177,21 @@ def gen(tier, rng):
                 l = rng.choice(["", "", " "]) + rng.choice(seps).join(rng.choice(words) for _ in range(nw)) + rng.choice(["", "", " "])
                 lines.append(l)
         cases.append(f"sinfo\t{hexlist([l.encode() for l in lines])}")
+    # the clients' read loops on long replies: 15 / 50 lines (well over 512 octets in total, each line short), one line of 600
+    # octets, in one segment and cut at a few places; and a reused connection whose second message is refused at the end of
+    # data (every reply must be taken as the answer to its own command)
+    from tools import smtpgen as _sg
+    from tools.props import c20 as _c20
+    longs = [render(b"250", [b"X-FEATURE-%02d some text to make the line longer" % k for k in range(n)], False) for n in (15, 50)]
+    longs += [render(b"250", [b"y" * 600], False), render(b"550", [b"line %d" % k for k in range(50)], False)]
+    for st in longs:
+        for mode in "sa":
+            cases.append(f"rr\t{mode}\t{hexs(st)}\t-")
+            cases.append(f"rr\t{mode}\t{hexs(st)}\t{','.join(map(str, sorted(rng.sample(range(1, len(st)), 6))))}")
+    h = _c20.happy(1)          # greeting, EHLO, MAIL, RCPT, DATA, end of data
+    reuse = h + [_sg.step(b"250 ok\r\n")] + h[2:5] + [_sg.step(b"554 5.7.1 rejected\r\n"), _sg.step(b"221 bye\r\n")]
+    for client in "sa":
+        cases.append(_c20.pool_case(client, 300, 1, False, 2, "a@b.c", ["x@y.z"], b"hello\r\n", [reuse, h]))
     return cases
 
 
@@ -187,13 +202,13 @@ def nontrivial(case):
         return s.count(b"\r\n") > 1 or any(x in s[4:-2] for x in (b"\r", b"\n", b"-"))
     if f[0] == "rr":
         return f[3] != "-"
-    if f[0] == "racc":
+    if f[0] in ("racc", "pool", "client"):
         return True
     return len(unhexlist(f[1])) > 1
 
 
 def shrinkable(case):
-    return {"parse": [1], "rr": [2], "sinfo": [1], "racc": []}[case.split("\t")[0]]
+    return {"parse": [1], "rr": [2], "sinfo": [1], "racc": []}.get(case.split("\t")[0], [])
 
 
 def distribution(cases):
@@ -209,6 +224,8 @@ def distribution(cases):
                 d["parse_other"] += 1
         elif f[0] == "racc":
             d["accessors"] = d.get("accessors", 0) + 1
+        elif f[0] in ("pool", "client"):
+            d["through_a_transport"] = d.get("through_a_transport", 0) + 1
         elif f[0] == "rr":
             d["rr_sync" if f[1] == "s" else "rr_async"] += 1
             if f[3].count(",") > 5:
